@@ -582,6 +582,23 @@ pub fn exec_map<const N: usize>(cage: &mut Cage<Map<Key, Val, N>>, op: &Value, c
                 Some(()) => json!(["unit"]),
             }
         }
+        "eq_clone" => {
+            // (traces) a container compares equal to its own clone, whatever its size and slot order
+            let m = &cage.m;
+            let r = call(ctx, || {
+                let c = m.clone();
+                let e = c == *m && *m == c && !(c != *m);
+                drop(c);
+                e
+            });
+            // the clone's objects came and went inside the call: they are not part of the observed step
+            let made: Vec<u32> = ledger::with(|l| l.clones.iter().map(|x| x.1).collect());
+            ledger::with(|l| l.drops.retain(|(_, sr)| !made.contains(sr)));
+            match r {
+                None => json!(["panic"]),
+                Some(b) => json!(["b", b]),
+            }
+        }
         "default" | "with_capacity" => {
             let c = i(op, "c") as usize;
             #[allow(deprecated)]
@@ -650,8 +667,9 @@ pub fn exec_map<const N: usize>(cage: &mut Cage<Map<Key, Val, N>>, op: &Value, c
                 op["items"].as_array().unwrap().iter().map(|it| (ctx.mk_key(&it["k"]), ctx.mk_val(&it["v"]))).collect();
             let nitems = items.len();
             let pulled = Cell::new(0usize);
+            let done = Cell::new(0usize);
             let built = if name == "from_iter" {
-                let src = Source { items: items.into_iter(), pulled: &pulled, done: Cell::new(0), hint: hint_of(op) };
+                let src = Source { items: items.into_iter(), pulled: &pulled, done: &done, hint: hint_of(op) };
                 call(ctx, || src.collect::<Map<Key, Val, N>>())
             } else {
                 assert_eq!(nitems, N);
@@ -660,6 +678,9 @@ pub fn exec_map<const N: usize>(cage: &mut Cage<Map<Key, Val, N>>, op: &Value, c
                 pulled.set(N);
                 call(ctx, || Map::<Key, Val, N>::from(arr))
             };
+            if done.get() > 1 {
+                ctx.note("C16", "the source iterator was polled again after it had returned None".into());
+            }
             match built {
                 None => {
                     // the old (empty) container of the cage stays
@@ -746,9 +767,18 @@ pub fn exec_map<const N: usize>(cage: &mut Cage<Map<Key, Val, N>>, op: &Value, c
                 Some(x) => x,
                 None => return json!(["panic"]),
             };
-            fn de<const M: usize>(fmt: &str, data: &[u8], orig: &dyn Fn(&Map<Key, Val, M>) -> bool, ctx: &mut Ctx) -> Value {
+            fn de<const M: usize>(fmt: &str, data: &[u8], orig: &dyn Fn(&Map<Key, Val, M>) -> bool, ctx: &mut Ctx, inplace: bool) -> Value {
                 let r = std::panic::catch_unwind(std::panic::AssertUnwindSafe(|| -> Option<Map<Key, Val, M>> {
-                    if fmt == "json" {
+                    if inplace && fmt == "json" {
+                        // Deserialize::deserialize_in_place into a target that already holds a stale entry
+                        let mut target: Map<Key, Val, M> = Map::new();
+                        if M > 0 {
+                            target.insert(Key::new(777, 0), Val::new(9));
+                        }
+                        let mut d = serde_json::Deserializer::from_slice(data);
+                        serde::Deserialize::deserialize_in_place(&mut d, &mut target).ok()?;
+                        Some(target)
+                    } else if fmt == "json" {
                         serde_json::from_slice(data).ok()
                     } else {
                         bincode::serde::decode_from_slice(data, bincode::config::legacy()).ok().map(|x| x.0)
@@ -769,7 +799,7 @@ pub fn exec_map<const N: usize>(cage: &mut Cage<Map<Key, Val, N>>, op: &Value, c
                 }
             }
             let m = &cage.m;
-            let mut r = with_n!(mcap, de, fmt, &data, &|d| d == m && m == d, ctx);
+            let mut r = with_n!(mcap, de, fmt, &data, &|d| d == m && m == d, ctx, s(op, "place") == "inplace");
             r["announced"] = json!(announced);
             r["emitted"] = json!(emitted);
             r
@@ -783,7 +813,7 @@ pub fn exec_map<const N: usize>(cage: &mut Cage<Map<Key, Val, N>>, op: &Value, c
 pub struct Source<'a, T> {
     pub items: std::vec::IntoIter<T>,
     pub pulled: &'a Cell<usize>,
-    pub done: Cell<usize>,
+    pub done: &'a Cell<usize>,
     /// what size_hint claims: 0 = nothing (0, None), 1 = the truth, 2 = "at most zero" (a lie safe code may tell)
     pub hint: u8,
 }
@@ -1226,6 +1256,7 @@ fn fmt_map<const N: usize>(m: &Map<Key, Val, N>, style: &str, ctx: &mut Ctx) -> 
         "alt" => call(ctx, || write!(sink, "{:#?}", m)),
         "debug_w" => call(ctx, || write!(sink, "{:<14?}", m)),
         "display_w" => call(ctx, || write!(sink, "{:>40}", m)),
+        "display_alt" => call(ctx, || write!(sink, "{:#}", m)),
         _ => call(ctx, || write!(sink, "{}", m)),
     };
     if r.is_none() {
@@ -1244,6 +1275,9 @@ fn fmt_map<const N: usize>(m: &Map<Key, Val, N>, style: &str, ctx: &mut Ctx) -> 
     // elements: both renderings of the ENTRIES are accepted, padding of the whole is not
     let alt = if style == "display_w" {
         let parts: Vec<String> = seq.iter().map(|(k, v)| format!("{k:>40}: {v:>40}")).collect();
+        format!("{{{}}}", parts.join(", "))
+    } else if style == "display_alt" {
+        let parts: Vec<String> = seq.iter().map(|(k, v)| format!("{k:#}: {v:#}")).collect();
         format!("{{{}}}", parts.join(", "))
     } else {
         expect.clone()
@@ -1354,6 +1388,23 @@ pub fn exec_set<const N: usize>(cage: &mut Cage<Set<Key, N>>, op: &Value, ctx: &
                 Some(()) => json!(["unit"]),
             }
         }
+        "s_eq_clone" => {
+            // (traces) a container compares equal to its own clone, whatever its size and slot order
+            let m = &cage.m;
+            let r = call(ctx, || {
+                let c = m.clone();
+                let e = c == *m && *m == c && !(c != *m);
+                drop(c);
+                e
+            });
+            // the clone's objects came and went inside the call: they are not part of the observed step
+            let made: Vec<u32> = ledger::with(|l| l.clones.iter().map(|x| x.1).collect());
+            ledger::with(|l| l.drops.retain(|(_, sr)| !made.contains(sr)));
+            match r {
+                None => json!(["panic"]),
+                Some(b) => json!(["b", b]),
+            }
+        }
         "s_default" => {
             match call(ctx, Set::<Key, N>::default) {
                 None => json!(["panic"]),
@@ -1429,17 +1480,18 @@ pub fn exec_set<const N: usize>(cage: &mut Cage<Set<Key, N>>, op: &Value, ctx: &
         "s_extend" | "s_from_iter" | "s_from_array" => {
             let items: Vec<Key> = op["items"].as_array().unwrap().iter().map(|it| ctx.mk_key(&it["k"])).collect();
             let pulled = Cell::new(0usize);
+            let done = Cell::new(0usize);
             let m = &mut cage.m;
-            match name {
+            let r = match name {
                 "s_extend" => {
-                    let src = Source { items: items.into_iter(), pulled: &pulled, done: Cell::new(0), hint: hint_of(op) };
+                    let src = Source { items: items.into_iter(), pulled: &pulled, done: &done, hint: hint_of(op) };
                     match call(ctx, || m.extend(src)) {
                         None => json!({"r": "panic", "pulled": pulled.get()}),
                         Some(()) => json!({"r": "ok", "pulled": pulled.get()}),
                     }
                 }
                 "s_from_iter" => {
-                    let src = Source { items: items.into_iter(), pulled: &pulled, done: Cell::new(0), hint: hint_of(op) };
+                    let src = Source { items: items.into_iter(), pulled: &pulled, done: &done, hint: hint_of(op) };
                     match call(ctx, || src.collect::<Set<Key, N>>()) {
                         None => json!({"r": "panic", "pulled": pulled.get()}),
                         Some(st) => {
@@ -1462,7 +1514,11 @@ pub fn exec_set<const N: usize>(cage: &mut Cage<Set<Key, N>>, op: &Value, ctx: &
                         }
                     }
                 }
+            };
+            if done.get() > 1 {
+                ctx.note("C16", "the source iterator was polled again after it had returned None".into());
             }
+            r
         }
         "clone" => {
             let m = &cage.m;
@@ -1532,9 +1588,17 @@ pub fn exec_set<const N: usize>(cage: &mut Cage<Set<Key, N>>, op: &Value, ctx: &
                 Some(x) => x,
                 None => return json!(["panic"]),
             };
-            fn de<const M: usize>(fmt: &str, data: &[u8], orig: &dyn Fn(&Set<Key, M>) -> bool, ctx: &mut Ctx) -> Value {
+            fn de<const M: usize>(fmt: &str, data: &[u8], orig: &dyn Fn(&Set<Key, M>) -> bool, ctx: &mut Ctx, inplace: bool) -> Value {
                 let r = std::panic::catch_unwind(std::panic::AssertUnwindSafe(|| -> Option<Set<Key, M>> {
-                    if fmt == "json" {
+                    if inplace && fmt == "json" {
+                        let mut target: Set<Key, M> = Set::new();
+                        if M > 0 {
+                            target.insert(Key::new(777, 0));
+                        }
+                        let mut d = serde_json::Deserializer::from_slice(data);
+                        serde::Deserialize::deserialize_in_place(&mut d, &mut target).ok()?;
+                        Some(target)
+                    } else if fmt == "json" {
                         serde_json::from_slice(data).ok()
                     } else {
                         bincode::serde::decode_from_slice(data, bincode::config::legacy()).ok().map(|x| x.0)
@@ -1554,7 +1618,7 @@ pub fn exec_set<const N: usize>(cage: &mut Cage<Set<Key, N>>, op: &Value, ctx: &
                 }
             }
             let m = &cage.m;
-            let mut r = with_n!(mcap, de, fmt, &data, &|d| d == m && m == d, ctx);
+            let mut r = with_n!(mcap, de, fmt, &data, &|d| d == m && m == d, ctx, s(op, "place") == "inplace");
             r["announced"] = json!(announced);
             r["emitted"] = json!(emitted);
             r
@@ -1569,6 +1633,7 @@ pub fn exec_set<const N: usize>(cage: &mut Cage<Set<Key, N>>, op: &Value, ctx: &
                 "alt" => call(ctx, || write!(sink, "{:#?}", m)),
                 "debug_w" => call(ctx, || write!(sink, "{:<14?}", m)),
                 "display_w" => call(ctx, || write!(sink, "{:>40}", m)),
+                "display_alt" => call(ctx, || write!(sink, "{:#}", m)),
                 _ => call(ctx, || write!(sink, "{}", m)),
             };
             if r.is_none() {
@@ -1585,6 +1650,9 @@ pub fn exec_set<const N: usize>(cage: &mut Cage<Set<Key, N>>, op: &Value, ctx: &
             };
             let alt = if style == "display_w" {
                 let parts: Vec<String> = seq.iter().map(|k| format!("{k:>40}")).collect();
+                format!("{{{}}}", parts.join(", "))
+            } else if style == "display_alt" {
+                let parts: Vec<String> = seq.iter().map(|k| format!("{k:#}")).collect();
                 format!("{{{}}}", parts.join(", "))
             } else {
                 expect.clone()
